@@ -1260,6 +1260,20 @@ RULES["R101"] = rule_R101
 RULE_DOC["R101"] = rule_R101.__doc__.strip()
 DEFAULT_RULES = ["R101"]
 
+# --- plugin rule modules: every tools/rules_*.py is loaded and its `register(RULES, RULE_DOC, extract_module)` is called.
+# A plugin rule has the same shape as the rules above: `rule(src, stats) -> src`, purely syntactic, counted in `stats`.
+def _load_rule_plugins():
+    import glob, importlib.util
+    here = os.path.dirname(os.path.abspath(__file__))
+    for p in sorted(glob.glob(os.path.join(here, "rules_*.py"))):
+        sp = importlib.util.spec_from_file_location(os.path.basename(p)[:-3], p)
+        m = importlib.util.module_from_spec(sp)
+        sp.loader.exec_module(m)
+        m.register(RULES, RULE_DOC, sys.modules[__name__])
+
+
+_load_rule_plugins()
+
 def items_of(file):
     path = os.path.join(REPO_SRC, file)
     if path not in _item_cache:
